@@ -58,7 +58,7 @@ func plan(unknown int, callers ...int) *rig.MuxPlan {
 func main() {
 	ev.Supervise("C06", ev.ArgTier(), "exploration", "the monitor runs in a child process; a panic or runtime fatal error on a goroutine of the library (inbound reader, dispatch) ends every in-flight request and is a violation attributed to the first library frame of the dying goroutine")
 	run := ev.New("C06", ev.ArgTier(), "exploration")
-	run.Rule("(a) enforced schedules over plans with up to 4 duplicates per op id, late frames for timed-out callers and never-issued ids: all interleavings (or a seeded sample when the DFS exceeds its bound) of lookup / delivery with the callers' receive / timeout / unregister+return steps, callers held after their receive so that their registration outlives several duplicates; after every schedule a fresh request must be answered; (b) hook-free stress: up to 64 concurrent callers, up to 4 back-to-back duplicates written in one burst. Verdict is logical: send.begin(opid) without send.end(opid) while the only possible receiver is past its receive. (c) well-formed responses fed as an arbitrary byte stream; (d) requesters held up at every access to their FContext until the wire has settled (and by a busy registry) against a responder that answers at once: a response handled by the reader as unknown while its request is on the wire and its caller waits is a lost response; (e) the send of one request fails for a reason of its own (refused payload, own deadline inside Flush, request-specific Flush error; nothing of it reaches the wire) while others are in flight on a healthy connection: their responses, fed after the failed send ended, and a fresh request must complete; (f) the response of a request is the last frame of the session and the end of the session (EOF, read error, Close) is processed right behind it while the caller is parked between registering and waiting (yield point request.registered / Timeout() accessor of its FContext): a response whose dispatch to the registration completed before the close must be what the request returns. distinct = distinct (leg, plan, schedule) strings + stress / trial shapes")
+	run.Rule("(a) enforced schedules over plans with up to 4 duplicates per op id, late frames for timed-out callers and never-issued ids: all interleavings (or a seeded sample when the DFS exceeds its bound) of lookup / delivery with the callers' receive / timeout / unregister+return steps, callers held after their receive so that their registration outlives several duplicates; after every schedule a fresh request must be answered; (b) hook-free stress: up to 64 concurrent callers, up to 4 back-to-back duplicates written in one burst. Verdict is logical: send.begin(opid) without send.end(opid) while the only possible receiver is past its receive. (c) well-formed responses fed as an arbitrary byte stream; (d) requesters held up at every access to their FContext until the wire has settled (and by a busy registry) against a responder that answers at once: a response handled by the reader as unknown while its request is on the wire and its caller waits is a lost response; (e) the send of one request fails for a reason of its own (refused payload, own deadline inside Flush, request-specific Flush error; nothing of it reaches the wire) while others are in flight on a healthy connection: their responses, fed after the failed send ended, and a fresh request must complete; (f) the response of a request is the last frame of the session and the end of the session (EOF, read error, Close) is processed right behind it while the caller is parked between registering and waiting (yield point request.registered / Timeout() accessor of its FContext): a response whose dispatch to the registration completed before the close must be what the request returns; (g) the response of request A is dispatched while A's caller is parked between registering and waiting, further frames for A's op id follow, and A's caller receives, unregisters and returns WHILE the reader handles the duplicate (inside every log call the reader makes there, through a log sink installed with SetLogger; and hook-free, let go at the moment the duplicate is fed): the responses of the other in-flight requests, fed afterwards, must be returned; stall = delivery to A begun and not ended, A's caller gone, a goroutine parked on a channel inside dispatch, persisting. distinct = distinct (leg, plan, schedule) strings + stress / trial shapes")
 	run.Assume("yield points compiled in with -tags verif do not change behaviour when no goroutine is parked")
 	type cfg struct {
 		p     *rig.MuxPlan
@@ -302,6 +302,7 @@ func main() {
 	}
 	heldUp(run, nats)
 	lastFrames(run, nats)
+	pickups(run, nats)
 	sendFailures(run)
 	os.Exit(run.Finish())
 }
